@@ -188,15 +188,50 @@ def build_traces(path, tier, seed):
             alpha = float([-3.0, 0.1, 7.0][i % 3])
             sc = fq.calc_smooth_fa_spectrum(ff, fa * alpha, tg, band=band)
             add({"kind": "rel", "clause": "Homogeneous", "x": enc_seq(direct), "y": enc_seq(sc), "f": enc(abs(alpha))}, {"kind": "rel", "law": "Homogeneous", "alpha": alpha})
+            if i % 3 == 0 and len(ff) > 8:
+                # targets that log-resample the spectrum over its own range: same count and end points as the grid, other interior
+                tg2 = np.geomspace(ff[1], ff[-1], len(ff) - 1)
+                mat2 = fq.calc_smoothing_matrix_konno_1998(ff, tg2, band=band)
+                d2 = fq.calc_smooth_fa_spectrum(ff, fa, tg2, band=band)
+                v2_ = fq.calc_smooth_fa_spectrum_w_custom_matrix(o, mat2)
+                add({"kind": "rel", "clause": "MatrixEqualsDirect", "x": enc_seq(d2), "y": enc_seq(v2_), "f": enc(1.0)},
+                    {"kind": "rel", "law": "MatrixEqualsDirect (targets = geomspace over the grid's range, same count)", "n": n})
+                sel_ = list(range(0, len(tg2), max(1, len(tg2) // 5)))[:6]
+                add({"kind": "matrix", "freqs": enc_seq(ff), "targets": enc_seq(tg2[sel_]), "band": enc(band), "cols": [enc_seq(mat2[:, c]) for c in sel_]},
+                    {"kind": "matrix", "n": n, "band": band, "targets": "geomspace over the grid's range (sampled columns)"})
         # bandwidth
         o2 = eqsig.AccSignal(x, dt)
         ratio = float([0.707, 0.5, 0.9, 0.2][i % 4])
+        held = None
+        if rng.integers(3) == 0:
+            # the object holds a smoothed spectrum generated explicitly with another bandwidth: the limits refer to THAT spectrum
+            with warnings.catch_warnings():
+                warnings.simplefilter("ignore")
+                o2.gen_smooth_fa_spectrum(band=float(rng.choice([100.0, 15.0, 70.0])))
+            held = np.array(o2.smooth_fa_spectrum)
         with warnings.catch_warnings():
             warnings.simplefilter("ignore")
             fmin, fmax = im.calc_bandwidth_freqs(o2, ratio=ratio)
             fmin2, fmax2 = im.calc_bandwidth_f_min(o2, ratio=ratio), im.calc_bandwidth_f_max(o2, ratio=ratio)
-        add({"kind": "band", "smooth": enc_seq(o2.smooth_fa_spectrum), "sfreqs": enc_seq(o2.smooth_fa_frequencies), "ratio": enc(ratio),
+        if held is not None:
+            add({"kind": "rel", "clause": "Bandwidth", "x": enc_seq(held), "y": enc_seq(o2.smooth_fa_spectrum), "f": enc(1.0)},
+                {"kind": "rel", "law": "the bandwidth functions leave the held smoothed spectrum as it is", "n": n})
+        add({"kind": "band", "smooth": enc_seq(held if held is not None else o2.smooth_fa_spectrum), "sfreqs": enc_seq(o2.smooth_fa_frequencies), "ratio": enc(ratio),
              "fmin": enc(fmin if i % 2 else fmin2), "fmax": enc(fmax if i % 2 else fmax2)}, {"kind": "band", "n": n, "ratio": ratio, "fmin": float(fmin), "fmax": float(fmax)})
+    # one LARGE job (long record x many targets, ~10 M window weights): the value at a target does not depend on how many
+    # other targets are evaluated in the same call
+    nbig, ntg = 2 ** 15, 640
+    xb = rng.standard_normal(nbig)
+    ob = eqsig.Signal(xb, 0.01)
+    ffb, fab = np.array(ob.fa_freqs), np.array(ob.fa_spectrum)
+    tgb = np.geomspace(0.05, 45.0, ntg)
+    with warnings.catch_warnings():
+        warnings.simplefilter("ignore")
+        allb = fq.calc_smooth_fa_spectrum(ffb, fab, tgb, band=40)
+        parts = np.concatenate([fq.calc_smooth_fa_spectrum(ffb, fab, tgb[k0:k0 + 160], band=40) for k0 in range(0, ntg, 160)])
+    add({"kind": "rel", "clause": "MatrixEqualsDirect", "x": enc_seq(parts), "y": enc_seq(allb), "f": enc(1.0)},
+        {"kind": "rel", "law": "large job: all targets at once = four quarters", "bins": len(ffb), "targets": ntg})
+    del allb, parts
     write_ndjson(path, recs)
     return meta
 
